@@ -88,6 +88,15 @@ def run_checked(ctx, cfg, segs, kind):
     return None
 
 
+def oracle_body_open(ctx, cfg, data, segs, o):
+    """no hang: when feed_data raises while a body stream already handed to the caller is still open, that stream
+    must have been ended or failed — otherwise its reader waits for ever behind the queued protocol error"""
+    if o.get("body_open_after_error"):
+        ctx.violation(f"C10/hang/raised-but-delivered-body-left-open/{'resp' if cfg.response else 'req'}",
+                      {"cfg": cfg.spec(), "stream": hx(data), "cuts": [len(s) for s in segs], "bodyopen": True},
+                      f"feed_data raised {o['err']} but the body stream of the message in progress got neither EOF nor an exception")
+
+
 def limit_probes(rng):
     """(cfg, stream, position, delta) with the probed line of length limit+delta"""
     out = []
@@ -157,6 +166,7 @@ def check(ctx):
                 canon, o = H.run_impl(cfg, segs, True)
                 ctx.case((cfg.key(), data, tuple(len(s) for s in segs)), sample={"probe": pos, "delta": delta, "cfg": cfg.spec(), "impl": canon[:100]} if ctx.evaluations % 2503 == 0 else None)
                 lines.append(H.model_line(cfg, segs, True)); pending.append(({"cfg": cfg.spec(), "stream": hx(data), "cuts": [len(s) for s in segs]}, canon))
+                oracle_body_open(ctx, cfg, data, segs, o)
                 rej = H.rejected(o)
                 want = expected_verdict(pos, delta)
                 case = {"cfg": cfg.spec(), "stream": hx(data), "cuts": [len(s) for s in segs], "probe": pos, "delta": delta}
@@ -194,6 +204,7 @@ def check(ctx):
             err = run_checked(ctx, cfg, segs, kind)
             canon, o = H.run_impl(cfg, segs, True)
             ctx.case((cfg.key(), data, tuple(len(s) for s in segs)), nontrivial=bool(o["events"]) or o["err"] is not None)
+            oracle_body_open(ctx, cfg, data, segs, o)
             lines.append(H.model_line(cfg, segs, True)); pending.append(({"cfg": cfg.spec(), "stream": hx(data), "cuts": [len(s) for s in segs]}, canon))
             ctx.hit("verdict:" + str(o["err"]))
         ctx.hit("kind:" + kind)
@@ -225,6 +236,10 @@ def replay(ctx, case):
     for n in case["cuts"]:
         segs.append(data[pos:pos + n]); pos += n
     run_checked(ctx, cfg, segs, "replay")
+    if case.get("bodyopen"):
+        _, o = H.run_impl(cfg, segs, True)
+        oracle_body_open(ctx, cfg, data, segs, o)
+        return
     if case.get("server"):
         from . import c01
         return c01.replay(ctx, case)
